@@ -89,7 +89,7 @@ PROPS["C11"] = dict(
                 "strata as well. Partial — not theorems: Deatanhe/Datanhee as divided differences are hypotheses of the Init theorems where the ellipsoid is not fixed (instantiated for oblate, "
                 "prolate (every pair since 36a144d) and spherical); the longitude recovery through atan2 in the kernel Reverse∘Forward theorems; convergence of the Newton iterations (tauf, tphif, Init — the repaired findings F86, F88 showed "
                 "the unrepaired loops need not converge; the safeguarded Init loop is modelled with its backtracking); du as the derivative of u; the limits of DDatanhee1 for prolate ellipsoids and of DDatanhee2 (only: its coefficients are those of the Taylor series of the "
-                "limit); monotonicity of the isometric latitude (ψ1 ≠ ψ2 is a hypothesis); floating-point error bounds (findings F84–F89, F93–F95 are floating-point/branch defects outside the real-number theorems' "
+                "limit); monotonicity of the isometric latitude (ψ1 ≠ ψ2 is a hypothesis); floating-point error bounds (findings F84–F89, F96–F99 are floating-point/branch defects outside the real-number theorems' "
                 "hypotheses). These stay covered by the binary128 closed-form oracle and the other oracles on the implementation."),
     level_note=("hand-written polymorphic model (RealLike) of PolarStereographic.cpp, Math::taupf/tauf/eatanhe, the divided-difference helpers of LambertConformalConic.hpp / AlbersEqualArea.hpp, the "
                 "_sign bookkeeping, the constructor checks and the cone kernels (Init, Forward, Reverse, SetScale, the Albers series); LatFix, tand, sincosd, atand, atan2d, AngNormalize are kernels (C16); "
@@ -102,5 +102,5 @@ PROPS["C11"] = dict(
                  "libm kernels (sinh, asinh, atanh, atan, exp, log, hypot) agree between Lean's Float and C++ to a few ulp",
                  "Snyder's formulas are the definitions of the projections; the origin of a two-parallel cone is the latitude of minimum (azimuthal) scale, as the headers state",
                  "outside terrestrial flattening the documented accuracy figures are scaled by kappa(f) = max(1, b/a, 1/(1−e²)) and by the computed condition number of the problem; "
-                 "what exceeds that is reported (open findings F87, F89, F93, F94, F95, each with a class decided from the configuration alone)"],
+                 "what exceeds that is reported (open findings F87, F89, F96, F98, F99, each with a class decided from the configuration alone)"],
 )
